@@ -81,3 +81,27 @@ def accumulator_guard(ctx, rule, modname, qual, param):
                   f"{qual}: `{param}` is replaced by a fresh object only when it is None",
                   f"{qual}: `{param}` is replaced whenever it is falsy: a caller-supplied EMPTY accumulator is silently swapped for a private one, "
                   f"so its in-place expansion is lost exactly when it starts empty", node=node)
+
+
+def no_shared_default_writes(ctx, rule, files, allow=()):
+    """No function in ``files`` writes in place to a class-level object or to a value handed out by a memoising helper:
+    such an object is one per process, so the write is seen by every later call and every other instance (a `-A`
+    extension list that grows with every dohtml call, an engine table that keeps the first package's contents)."""
+    files = set(files)
+    allowed = set(allow)
+    n = 0
+    for fi in _funcs_of(ctx.program, files):
+        n += 1
+        for s, tags in effects.shared_writes(ctx.program, fi):
+            for t in tags:
+                if not t.startswith(("class:", "cached:")):
+                    continue
+                if (fi.qual, t) in allowed or t in allowed:
+                    continue
+                ctx.fail(rule, fi, "process-wide-write:" + t,
+                         f"{fi.qual} modifies `{s.target}` in place ({s.how}); that object is {('the class attribute ' + t[6:]) if t.startswith('class:') else ('the memoised result of ' + t[7:])}, "
+                         f"shared by every instance and every later call: the first use changes what all following ones start from", node=s.node)
+    ctx.assume(effects.ASSUMPTION)
+    ctx.ob(rule, "process-wide objects", f"{n} functions in {len(files)} file(s): no in-place write to a class-level attribute or a memoised value",
+           file=sorted(files)[0] if files else "")
+    return n
